@@ -3,6 +3,7 @@
    vo  validate_one / skip_one on the document
    wk  skip_one on doc ++ "}"  inside a buffer of length len+6   (Get(`{"k":`+doc+`}`, "k"))
    wi  skip_one on doc ++ "]"  inside a buffer of length len+4   (Get(`[0,`+doc+`]`, 1))
+   v5  validate_one / skip_one with flags = MASK_VALIDATE_STRING
    fo  skip_one_fast on the document                                                                *)
 open Datatypes
 
@@ -36,5 +37,6 @@ let () =
       let wk = show (n + 1) (Fsm.skip_one_at (nat_of_int (n + 6)) (s @ [Conv.n_of_int 125])) in
       let wi = show (n + 1) (Fsm.skip_one_at (nat_of_int (n + 4)) (s @ [Conv.n_of_int 93])) in
       let fo = show n (Fast.skip_one_fast_1 s) in
-      Stdlib.Printf.printf "%s\tvo=%s\tvalid=%s\twk=%s\twi=%s\tfo=%s\n" id vo valid wk wi fo
+      let v5 = show n (Fsm.skip_one_vs s) in
+      Stdlib.Printf.printf "%s\tvo=%s\tvalid=%s\twk=%s\twi=%s\tfo=%s\tv5=%s\n" id vo valid wk wi fo v5
     | None -> ())
